@@ -32,6 +32,7 @@ case "$kind" in
     fi
     [ "$kind" = unsaterr ] && exit 1;;
   unsatnocore) printf 'unsat\n()\n';;
+  unsatcore) printf 'unsat\n(%s)\n' "$(cat "$dir/$base.core" 2>/dev/null)";;   # unsat with the core given in <base>.core
   unknown) printf 'unknown\n';;
   timeout) sleep "$(cat "$dir/timeout.sleep" 2>/dev/null || echo 3)"; printf 'unsat\n';;
   garbage) printf 'Segmentation fault (core dumped) lol\n';;
